@@ -222,6 +222,7 @@ def analyse(ctx, replace=None, only=None):
     grow_order(R, P)
     secure_zero(R, P)
     cstr_scans(R, P)
+    checked_results(R, P, fns)
 
 
 VIEW_MIN = 90
@@ -295,6 +296,49 @@ def _null_means_empty(st):
                             s0.add(Poly.atom(z))
                             s0.add(-Poly.atom(z))
     return s0
+
+
+def checked_results(R, P, fns):
+    """NOWRAP/checked: the overflow verdict of a checked addition / multiplication decides at once: each aws_*_checked call is
+    a branch condition and no successful return is reachable from its `overflowed` outcome (a verdict parked in a variable
+    can be overwritten by the next loop iteration, and the wrapped value is then returned as a success)."""
+    import re
+    from sa.cfg import edges
+    n = 0
+    for f in fns:
+        calls = [e for e in f.all_events() if e.kind == "call" and re.match(r"aws_(add|mul|sub)_(u32|u64|size)_checked$", e.node.get("callee") or "")]
+        for e in calls:
+            n += 1
+            tb = None
+            for b in f.blocks.values():
+                if b.cond is None:
+                    continue
+                cc, neg = RU.cond_call(f, b.cond)
+                if cc is not None and cc.get("id") == e.node["id"]:
+                    tb = (b, not neg)  # polarity of the edge on which the call returned non-zero
+            inst = "%s:%s:line%d" % (f.name, e.node["callee"], e.node.get("loc", [0])[0])
+            if tb is None:
+                R.fail("NOWRAP", "checked-result:" + inst, where(f, e), "the result of %s is not tested by a branch of its own (it flows into a variable or a larger expression): a later assignment can replace an `overflowed` verdict, and the wrapped value is used as if it were exact" % e.node["callee"])
+                continue
+            b, pol = tb
+            seen, work = set(), [s_ for s_, c_, p_ in edges(f, b.id) if p_ == pol]
+            while work:
+                x = work.pop()
+                if x in seen:
+                    continue
+                seen.add(x)
+                work.extend(s_ for s_, c_, p_ in edges(f, x))
+            bad = []
+            for r_ in f.returns():
+                if r_.blk in seen and r_.node["a"]:
+                    v = RU.uncast(f, r_.node["a"][0])
+                    rt = f.rettype()
+                    cv = f.is_const(v) if v is not None else None
+                    if (rt.get("bool") and cv == 1) or (not rt.get("bool") and cv == 0):
+                        bad.append(r_.node["loc"][0])
+            R.check(not bad, "NOWRAP", "checked-result:" + inst, where(f, e), "after an overflow verdict only failing returns are reachable",
+                    "a successful return (line %s) is reachable after %s reported an overflow: the wrapped value is handed out as the result" % (bad, e.node["callee"]))
+    R.require(n >= 6, "only %d checked-arithmetic calls found in byte_buf.c" % n)
 
 
 CSTR_SCANS = {"aws_array_eq_c_str": "c_str", "aws_array_eq_c_str_ignore_case": "c_str"}
@@ -462,6 +506,10 @@ def secure_zero(R, P):
 
 
 MUTANTS = [
+    {"name": "overflow-verdict-parked-in-a-variable", "file": BB, "expect": "NOWRAP",
+     "old": "        if (aws_mul_u64_checked(val, base, &val)) {\n            return aws_raise_error(AWS_ERROR_OVERFLOW_DETECTED);\n        }\n\n        if (aws_add_u64_checked(val, cval, &val)) {\n            return aws_raise_error(AWS_ERROR_OVERFLOW_DETECTED);\n        }\n    }",
+     "new": "        overflow_seen = aws_mul_u64_checked(val, base, &val) || aws_add_u64_checked(val, cval, &val);\n    }\n    if (overflow_seen) {\n        return aws_raise_error(AWS_ERROR_OVERFLOW_DETECTED);\n    }",
+     "old2": "    const uint8_t *hex_to_num_table = aws_lookup_table_hex_to_num_get();\n", "new2": "    const uint8_t *hex_to_num_table = aws_lookup_table_hex_to_num_get();\n    bool overflow_seen = false;\n"},
     {"name": "c-str-terminator-read-first", "file": BB, "expect": "BOUND",
      "old": "    const uint8_t *str_bytes = (const uint8_t *)c_str;\n\n    for (size_t i = 0; i < array_len; ++i) {\n        uint8_t s = str_bytes[i];\n        if (s == '\\0') {\n            return false;\n        }\n\n        if (array_bytes[i] != s) {",
      "new": "    const uint8_t *str_bytes = (const uint8_t *)c_str;\n\n    if (str_bytes[array_len] != '\\0') {\n        return false;\n    }\n    for (size_t i = 0; i < array_len; ++i) {\n        uint8_t s = str_bytes[i];\n        if (s == '\\0') {\n            return false;\n        }\n\n        if (array_bytes[i] != s) {"},
